@@ -66,3 +66,49 @@ func VH_C14_HTMLHelpers(shape int) {
 	vAssert(same, "the frame is unchanged by the HTML helper functions")
 	vAssert(c.Line == before.Line, "the line is unchanged by the HTML helper functions")
 }
+
+// VH_C14_ToHTML: the code of Snapshot.ToHTML / Aggregated.ToHTML around the
+// template engine (which is not interpreted: building the template succeeds,
+// executing it does nothing) writes nothing that existed before the call: a
+// snapshot scanned without path guessing, whose source file exists on the
+// declared file system, is rendered and keeps its unresolved frames.
+//
+//verif:prop C14
+//verif:param agg 0..1
+func VH_C14_ToHTML(agg int) {
+	b := vBytes("pkg", 1)
+	vAssume(vAnd(b[0] >= 'a', b[0] <= 'z'))
+	rel := string(b) + "/x.go"
+	root := vTempRoot()
+	vSetFile(root + "/gopath/src/" + rel)
+	s := &Snapshot{LocalGOROOT: root + "/goroot", LocalGOPATHs: []string{root + "/gopath"}}
+	for i := 0; i < 2; i++ {
+		g := &Goroutine{ID: i + 1, First: i == 0}
+		g.State = "running"
+		c := Call{RemoteSrcPath: "/r/src/" + rel, Line: 3 + i}
+		c.Func.Complete, c.Func.Name, c.Func.DirName, c.Func.ImportPath = "main.f", "f", "main", "main"
+		c.SrcName, c.DirSrc = "x.go", rel
+		g.Stack.Calls = []Call{c}
+		s.Goroutines = append(s.Goroutines, g)
+	}
+	var a *Aggregated
+	if agg == 1 {
+		a = s.Aggregate(AnyValue)
+	}
+	vBarrierOn()
+	w := &vhSink{}
+	var err error
+	if agg == 1 {
+		err = a.ToHTML(w, "")
+	} else {
+		err = s.ToHTML(w, "")
+	}
+	vBarrierOff()
+	vReach("rendered to HTML under write barrier")
+	_ = err
+	for _, g := range s.Goroutines {
+		c := &g.Stack.Calls[0]
+		vAssert(c.LocalSrcPath == "" && c.RelSrcPath == "" && c.Location == LocationUnknown && c.ImportPath == "", "rendering leaves the snapshot's frames as they were")
+	}
+	vAssert(s.RemoteGOROOT == "" && s.RemoteGOPATHs == nil && s.LocalGomods == nil, "rendering leaves the snapshot's roots as they were")
+}
